@@ -6,7 +6,7 @@ from hypothesis import strategies as st
 
 from lib import hyp
 from lib.hyp import Violation
-from lib.worker import EXT
+from lib.worker import EXT, FMT
 from pbt import gdoc
 
 PROP = 'C04'
@@ -47,12 +47,24 @@ CFG = gdoc.Cfg(words=st.sampled_from(['W', 'W', 'W', 'Q']), inlines=['t', 'em', 
                              unique_by=lambda t: t[0]).map(lambda m: [list(x) for x in m] or None))
 
 
+CFG_COMPAT = gdoc.Cfg(words=st.sampled_from(['W', 'W', 'W', 'Q']), inlines=['t', 'em', 'st', 'code', 'link', 'img'],
+                      blocks=['para', 'atx', 'setext', 'hr', 'icode', 'quote', 'list'], code=st.just('V'), codelines=st.just('V'),
+                      urls=st.sampled_from(['http://e.x/U', 'U.html', 'http://e.x/?a=U&b=U']), titles=st.sampled_from([None, None, 'T', 'T Q']),
+                      images=st.sampled_from(['img/U.png', 'U.jpg']))
+
+
 def strategy(tier):
+    return st.one_of(_strategy(CFG, False), _strategy(CFG, False), _strategy(CFG_COMPAT, True))
+
+
+def _strategy(cfg, compat):
     return st.fixed_dictionaries({
-        'doc': gdoc.document(CFG),
+        'compat': st.just(compat),
+        'doc': gdoc.document(cfg),
         'chars': st.lists(st.integers(0, len(ALL_RES) - 1), min_size=40, max_size=40),
         'payloads': st.lists(st.text(alphabet=VERB, min_size=1, max_size=10), min_size=12, max_size=12),
         'smart': st.booleans(), 'complete': st.booleans(),
+        'order': st.lists(st.sampled_from(['html', 'latex', 'beamer', 'memoir', 'opml']), max_size=4),
     })
 
 
@@ -354,13 +366,17 @@ FORMATS = ['html', 'latex', 'beamer', 'memoir', 'fodt', 'opml']
 def check(case, ctx):
     inst = Inst(case)
     doc = instantiate(single_use_notes(case['doc']), inst)
-    complete = case['complete'] and bool(doc.get('meta'))
+    complete = case['complete'] and bool(doc.get('meta')) and not case.get('compat')
     if not complete:
         doc = dict(doc, meta=None)
     src = gdoc.ser_doc(doc)
     if '\x00' in src:
         return
     ext = EXT['NOTES'] | EXT['CRITIC'] | (EXT['SMART'] if case['smart'] else 0) | (EXT['COMPLETE'] if complete else EXT['SNIPPET'])
+    if case.get('compat'):
+        # compatibility mode: plain Markdown constructs only (the generator uses CFG_COMPAT), no metadata
+        ext = EXT['COMPAT'] | (EXT['SMART'] if case['smart'] else 0) | EXT['SNIPPET']
+        ctx.cls('compat_mode')
     w = ctx.w
     body_src = gdoc.ser_blocks(doc['blocks'])
     src_w = re.findall(r'w\d{6}', body_src)
@@ -370,11 +386,33 @@ def check(case, ctx):
     for f in re.findall(r'\[\^(fn\d+)\]', body_src):
         src_n += re.findall(r'n\d{6}', notes.get(f, ''))
     fail = lambda sig, msg: Violation(sig, '%s\nsmart=%s complete=%s\nsource=%r' % (msg, case['smart'], complete, src))
+    # one shared parse tree feeds every writer: parse once, export through every writer in a generated order, and require each export to
+    # equal the fresh conversion of that format (a writer that edits the tree, or state kept between exports, shows here)
+    fresh = {}
     for fmt in FORMATS:
         r = w.convert(src, fmt, ext, api='sd')
         if r.status != 'ok':
             raise fail('convert:%s:%s' % (fmt, r.status), '')
-        raw = r.out
+        fresh[fmt] = r.out
+    order = [f for f in (case.get('order') or []) if f in ('html', 'latex', 'beamer', 'memoir', 'opml')]
+    if order:
+        w.call('pool', 'init')
+        eid = w.call('enew', ext, src)[1]
+        try:
+            for fmt in order:
+                got = w.call('eexport', eid, FMT[fmt])[1]
+                if got.rstrip(b'\n') != fresh[fmt].rstrip(b'\n'):
+                    i = 0
+                    while i < min(len(got), len(fresh[fmt])) and got[i] == fresh[fmt][i]:
+                        i += 1
+                    raise fail('shared-tree:%s' % fmt, 'exporting the parsed tree again (order %s) differs from a fresh %s conversion\nfresh: %r\nhere:  %r'
+                               % (order, fmt, fresh[fmt][max(0, i - 60):i + 100], got[max(0, i - 60):i + 100]))
+            ctx.cls('shared_tree_exports', len(order))
+        finally:
+            w.call('efree', eid)
+            w.call('pool', 'drain')
+    for fmt in FORMATS:
+        raw = fresh[fmt]
         text = raw.decode('utf-8', 'replace')
         # (4) nesting + (0) visible text
         if fmt in ('html', 'fodt', 'opml'):
